@@ -81,6 +81,7 @@ def check_c01(tier, seed):
             res.guard("sanitizer_changed_value[%s]" % fam, c["san"], 1)
         res.guard("families", len(fams), 4)
         res.guard("const_evaluated", sum_guard(reports, "const_evaluated"), 1)
+        res.guard("runtime_cell_bound_changes", sum_guard(reports, "runtime_cell_changed"), 20)
         res.guard("twin_groups", sum(1 for r in reports if r["decl"].startswith("twins:")), 3)
         # each bound observed below / on / above
         sides = {"Less": 0, "Equal": 0, "Greater": 0}
@@ -512,19 +513,30 @@ def check_c05(tier, seed):
                 "direct constructions only in try_new (after __validate__), new (around __sanitize__), unsafe new_unchecked, Clone::clone; new_unchecked present iff flagged and unsafe; no "
                 "unsafe blocks / transmute / undocumented pub fns. A case is one (attack, victim, visibility) triple or one audited expansion module.")
     cases = corpus_c05.build(tier, seed)
+    cases_nf = corpus_c05.build_without_feature(tier, seed)
     vc = verdict.VerdictCrate("c05-%s" % tier, cratebuild.ALL_FEATURES, extra_deps=FULL_DEPS, nshards=16)
+    vc_nf = verdict.VerdictCrate("c05nf-%s" % tier, ["std", "serde", "arbitrary", "regex", "schemars08"], extra_deps=FULL_DEPS, nshards=4)
     try:
         out, info = verdict.run_verdicts(vc, cases, log=log, max_rounds=10)
+        out_nf, info_nf = verdict.run_verdicts(vc_nf, cases_nf, log=log, max_rounds=10)
     except Inconclusive as e:
         res.inconclusive.append(str(e))
         return finish(res)
+    # the second crate's cases get their own id namespace
+    for c in cases_nf:
+        c.id = "n" + c.id
+        if c.control_of:
+            c.control_of = "n" + c.control_of
+    out.update({"n" + k: v for k, v in out_nf.items()})
+    res.guard("feature_off_cases", len(cases_nf) // 2, 15)
+    cases = cases + cases_nf
     by_id = {c.id: c for c in cases}
     n_ok = 0
     codes = {}
     for c in cases:
         if c.expect != "MUST_REJECT":
             continue
-        ctrl = by_id["c" + c.id[1:]]
+        ctrl = by_id[c.id.replace("a", "c", 1)]
         oa, oc = out[c.id], out[ctrl.id]
         res.evaluations += 2
         if oc["verdict"] != "accepted":
